@@ -93,21 +93,30 @@ def gen_asi_tokens():
         if e not in names:
             raise extract.ExtractError(f"can_end_statement names unknown kind {e}")
     scan = extract.strip_comments(fn_body(extract.rd("frontend/src/lexer/scanner/scan.rs"), "scan_token"))
-    opens, closes, char_kind = [], [], {}
+    opens, closes, saves, restores, char_kind = [], [], [], [], {}
     for ch in "()[]{}":
         arm = char_arm(scan, ch)
         k = re.search(r"TokenKind::([A-Za-z0-9]+)", arm)
         if not k:
             raise extract.ExtractError(f"arm for {ch!r} adds no token")
         char_kind[ch] = k.group(1)
-        inc = re.search(r"nesting_depth\s*\+=\s*1", arm) is not None
-        dec = re.search(r"nesting_depth\s*=\s*self\.nesting_depth\.saturating_sub\(1\)", arm) is not None
-        if "nesting_depth" in arm and not (inc or dec):
-            raise extract.ExtractError(f"arm for {ch!r} changes nesting_depth in a way this translator does not understand")
+        flat = re.sub(r"\s+", "", arm)
+        inc = "self.nesting_depth+=1" in flat
+        dec = "self.nesting_depth=self.nesting_depth.saturating_sub(1)" in flat
+        # `{`: save the ( [ depth of the enclosing code and start the block at depth 0
+        save = "self.brace_stack.push(self.nesting_depth);self.nesting_depth=0;" in flat
+        # `}`: restore it (nothing happens when there is no open `{`)
+        restore = "ifletSome(outer)=self.brace_stack.pop(){self.nesting_depth=outer;}" in flat
+        if ("nesting_depth" in arm or "brace_stack" in arm) and [inc, dec, save, restore].count(True) != 1:
+            raise extract.ExtractError(f"arm for {ch!r} changes nesting_depth / brace_stack in a way this translator does not understand")
         if inc:
             opens.append(k.group(1))
         if dec:
             closes.append(k.group(1))
+        if save:
+            saves.append(k.group(1))
+        if restore:
+            restores.append(k.group(1))
     # the newline arm: the three-condition rule must still be there (shape sentinel; the model
     # in Model/Asi.v is written for exactly this conjunction)
     nl = char_arm(scan, "\\n")
@@ -120,6 +129,9 @@ def gen_asi_tokens():
     cur = extract.strip_comments(fn_body(extract.rd("frontend/src/lexer/scanner/cursor.rs"), "next_token_is_else"))
     skipped = re.findall(r"c\s*==\s*'(\\?.)'", cur)
     sk = sorted(set(skipped))
+    flatcur = re.sub(r"\s+", "", cur)
+    skips_line_comment = "c=='/'&&next==Some('/')" in flatcur
+    skips_block_comment = "c=='/'&&next==Some('*')" in flatcur
     out = [extract.HEADER.format(src="syntax/src/token.rs, frontend/src/lexer/scanner/{scan,cursor}.rs"),
            "From Coq Require Import NArith Bool List.\nImport ListNotations.\n\n",
            "Inductive tkind :=\n" + "".join(f"| T{n}\n" for n in names) + ".\n\n",
@@ -128,7 +140,7 @@ def gen_asi_tokens():
            "Definition all_tkinds : list tkind := [" + "; ".join("T" + n for n in names) + "].\n\n",
            "Definition can_end_statement (k : tkind) : bool :=\n  match k with\n  | "
            + " | ".join("T" + e for e in enders) + " => true\n  | _ => false\n  end.\n\n"]
-    for nm, lst in (("depth_open", opens), ("depth_close", closes)):
+    for nm, lst in (("depth_open", opens), ("depth_close", closes), ("depth_save", saves), ("depth_restore", restores)):
         if lst:
             out.append(f"Definition {nm} (k : tkind) : bool :=\n  match k with\n  | " + " | ".join("T" + e for e in lst)
                        + " => true\n  | _ => false\n  end.\n\n")
@@ -138,5 +150,6 @@ def gen_asi_tokens():
     out.append("Definition else_lookahead_skips_newline : bool := %s.\n" % ("true" if "\\n" in sk else "false"))
     out.append("Definition else_lookahead_skips_blank : bool := %s.\n"
                % ("true" if all(x in sk for x in (" ", "\\t", "\\r")) else "false"))
-    out.append("Definition else_lookahead_skips_comment : bool := %s.\n" % ("true" if "/" in cur else "false"))
+    out.append("Definition else_lookahead_skips_line_comment : bool := %s.\n" % ("true" if skips_line_comment else "false"))
+    out.append("Definition else_lookahead_skips_block_comment : bool := %s.\n" % ("true" if skips_block_comment else "false"))
     return extract.write_if_changed("AsiTokens.v", "".join(out))
